@@ -1,11 +1,11 @@
 SPECIFICATION Spec
 CONSTANTS
-  Names = {"@", "a"}
-  Types = {"A", "CNAME", "NSEC", "SOA"}
+  Names = {"a"}
+  Types = {"A", "CNAME", "NSEC"}
   RdIds = {1}
-  TTLs = {300, 600}
+  TTLs = {300}
   Filters <- MCFiltersSmall
-  InitZones <- MCInitTrim
+  InitZones <- MCInitDeep
   NodeShapes <- MCShapesTrim
   MaxOps = 3
 INVARIANT TypeOK
